@@ -317,6 +317,8 @@ def direct_probes(prop, rep):
             except BaseException as e:  # noqa
                 return ("exn", type(e).__name__)
         ri, rs = ev(impl), ev(std)
+        if rs in (("exn", "NameError"), ("exn", "UnboundLocalError")):
+            raise RuntimeError("probe %r is broken: the reference side raised %s" % (name, rs[1]))    # never a silent pass
         rep.count(("probe", name), True)
         if ri != rs:
             rep.violation(sig_, {"probe": name, "asyncstdlib": repr(ri), "stdlib": repr(rs)})
@@ -539,6 +541,7 @@ def direct_probes(prop, rep):
         # None is a value like any other where the stdlib says so: an explicit initial / default of None is not "not given"
         pair = lambda acc, x: (acc, x)  # noqa
         import functools as _ft
+        import heapq as _hq
         both("reduce(f, [], None)", "none-argument:reduce", lambda: G.drive(a.reduce(pair, [], None)), lambda: _ft.reduce(pair, [], None))
         both("reduce(f, [7], None)", "none-argument:reduce", lambda: G.drive(a.reduce(pair, [7], None)), lambda: _ft.reduce(pair, [7], None))
         both("reduce(f, [7, 8], None)", "none-argument:reduce", lambda: G.drive(a.reduce(pair, [7, 8], None)), lambda: _ft.reduce(pair, [7, 8], None))
@@ -547,6 +550,25 @@ def direct_probes(prop, rep):
         both("min(iter([]), key=len, default=None)", "none-argument:min", lambda: G.drive(a.min(iter([]), key=len, default=None)), lambda: builtins.min(iter([]), key=len, default=None))
         both("max(['bb', 'a'], key=len, default=None)", "none-argument:max", lambda: G.drive(a.max(["bb", "a"], key=len, default=None)), lambda: builtins.max(["bb", "a"], key=len, default=None))
         both("sum([], None)", "none-argument:sum", lambda: G.drive(a.sum([], None)), lambda: builtins.sum([], None))
+        # a regular (not async def) key / function that hands back an awaitable *object* (a Future-like, not a coroutine)
+        class _AwVal:
+            def __init__(self, v):
+                self.v = v
+
+            def __await__(self):
+                return self.v
+                yield
+        data2 = [3, 1, 4, 1, 5, 9, 2, 6]
+        awkey = lambda x: _AwVal(-x)  # noqa
+        plain = lambda x: -x  # noqa
+        both("min key -> awaitable object", "key:awaitable-object", lambda: G.drive(a.min(data2, key=awkey)), lambda: builtins.min(data2, key=plain))
+        both("max key -> awaitable object", "key:awaitable-object", lambda: G.drive(a.max(data2, key=awkey)), lambda: builtins.max(data2, key=plain))
+        both("sorted key -> awaitable object", "key:awaitable-object", lambda: G.drive(a.sorted(data2, key=awkey)), lambda: builtins.sorted(data2, key=plain))
+        both("nlargest key -> awaitable object", "key:awaitable-object", lambda: G.drive(a.nlargest(data2, 3, key=awkey)), lambda: _hq.nlargest(3, data2, key=plain))
+        both("reduce function -> awaitable object", "key:awaitable-object", lambda: G.drive(a.reduce(lambda p_, q_: _AwVal(p_ * 2 + q_), data2)), lambda: _ft.reduce(lambda p_, q_: p_ * 2 + q_, data2))
+        # sum starts from the start value (0): the type of the result and the failures for non-numbers are the builtin's
+        for seq in ([True], [True, True], ["a"], [[1]], [None], [1.5], [], [(1,)]):
+            both("sum(%r) value and type" % (seq,), "sum:start-semantics", lambda: (lambda r: (r, type(r).__name__))(G.drive(a.sum(seq))), lambda: (lambda r: (r, type(r).__name__))(builtins.sum(seq)))
         both("reduce empty", "reduce:empty", lambda: G.drive(a.reduce(lambda x, y: x + y, [])), lambda: __import__("functools").reduce(lambda x, y: x + y, []))
         class FalsyKey:          # a callable container that is empty: falsy, still the key function
             def __call__(self, x):
@@ -734,6 +756,7 @@ def check_C05(tier, seed):
     import check_c16
     fails += check_c16.aspect_lazy(rep, rng, 300 * common.scale(rep) if tier == "quick" else 5000)
     fails += tee_laziness(rep, rng, 150 * common.scale(rep) if tier == "quick" else 3000)
+    fails += reiterable_laziness(rep)
     spec_stage(rep, "C05", std_pairs)
     finish_with_model(rep, "C05", pairs, fails, proofs_ok)
     return rep.finish()
@@ -876,6 +899,9 @@ def check_faults(prop, tier, seed):
         # an ExitStack unwinding under cancellation behaves like the nested `async with` statements (check_c14's stage)
         import check_c14
         fails += check_c14.cancellation_stage(rep, rng, 40 if tier == "quick" else 800)
+        # a cancelled call of a cached function leaves the cache as it was (check_c11's directed probe)
+        import check_c11
+        fails += check_c11.cancelled_call_probe(rep)
     finish_with_model(rep, prop, pairs, fails, proofs_ok)
     return rep.finish()
 
@@ -1060,6 +1086,33 @@ def falsy_callable_fault_probes(rep):
         "groupby": (lambda k: G.drive(alist(a.map(lambda kg: kg[0], a.groupby(data, key=k)))), lambda k: [kk for kk, _ in itertools.groupby(data, key=k)]),
     }
     fails = 0
+    # an exception of the protocol's own type raised by *user code* in an aggregation is an error like any other
+    for agg, fa_, fs_ in (("reduce", lambda f: G.drive(a.reduce(f, data)), lambda f: functools.reduce(f, data)),
+                          ("reduce(initial)", lambda f: G.drive(a.reduce(f, data, 0)), lambda f: functools.reduce(f, data, 0)),
+                          ("min key", lambda f: G.drive(a.min(data, key=f)), lambda f: builtins.min(data, key=f)),
+                          ("sorted key", lambda f: G.drive(a.sorted(data, key=f)), lambda f: builtins.sorted(data, key=f)),
+                          ("nsmallest key", lambda f: G.drive(a.nsmallest(data, 2, key=f)), lambda f: heapq.nsmallest(2, data, key=f))):
+        for n in (1, 2, 3):
+            def stopper():
+                c = [0]
+
+                def f(*args):
+                    c[0] += 1
+                    if c[0] == n:
+                        raise StopAsyncIteration("from user code")
+                    return args[-1]
+                return f
+
+            def ev2(run, f):
+                try:
+                    return ("ok", run(f))
+                except BaseException as e:  # noqa
+                    return ("exn", type(e).__name__, str(e))
+            got, want = ev2(fa_, stopper()), ev2(fs_, stopper())
+            rep.count(("callable-stop", agg, n), True)
+            if got != want:
+                fails += 1
+                rep.violation("callable-stop:%s" % agg.split()[0], {"tool": agg, "fails_at_call": n, "why": "a callable raising StopAsyncIteration: asyncstdlib %r, stdlib %r" % (got, want)})
     for name, (fa, fs) in probes.items():
         for n in (1, 2, 3, 99):
             def ev(f, k):
@@ -1077,6 +1130,88 @@ def falsy_callable_fault_probes(rep):
                     fails += 1
                     rep.violation("falsy-callable:%s" % name, {"tool": name, "fails_at_call": n, "async_callable": asynchronous,
                                                                 "why": "asyncstdlib %r, stdlib %r" % (got, want)})
+    return fails
+
+
+def reiterable_laziness(rep):
+    """C05, directed: an argument that can be iterated again (its __aiter__/__iter__ hands out a fresh iterator each time) is
+    nevertheless iterated exactly once by every tool: the trace of pulls equals the stdlib's over the same kind of object,
+    after every number of consumer steps (cycle replays what it saved, tee/chain/zip never start over)"""
+    import itertools
+    import asyncstdlib as a
+    fails = 0
+
+    def mk(log, data, asynchronous):
+        if asynchronous:
+            class Table:
+                def __aiter__(s):
+                    log.append("iter")
+
+                    async def g():
+                        for x in data:
+                            log.append(("pull", x))
+                            yield x
+                        log.append("end")
+                    return g()
+        else:
+            class Table:
+                def __iter__(s):
+                    log.append("iter")
+
+                    def g():
+                        for x in data:
+                            log.append(("pull", x))
+                            yield x
+                        log.append("end")
+                    return g()
+        return Table()
+    tools = {
+        "cycle": (lambda t: a.cycle(t), lambda t: itertools.cycle(t)),
+        "chain twice": (lambda t: a.chain(t, t), lambda t: itertools.chain(t, t)),
+        "zip with itself": (lambda t: a.zip(t, t), lambda t: zip(t, t)),
+        "enumerate": (lambda t: a.enumerate(t), lambda t: enumerate(t)),
+        "pairwise": (lambda t: a.pairwise(t), lambda t: itertools.pairwise(t)),
+    }
+    for name, (fa, fs) in tools.items():
+        for data in ([], [1], [1, 2, 3]):
+            for steps in range(1, 9):
+                log_s = []
+                it_s = fs(mk(log_s, data, False))
+                out_s = []
+                for _ in range(steps):
+                    try:
+                        out_s.append(next(it_s))
+                    except StopIteration:
+                        break
+                for asynchronous in (False, True):
+                    log_a = []
+                    it_a = fa(mk(log_a, data, asynchronous))
+                    out_a = []
+
+                    async def go():
+                        for _ in range(steps):
+                            try:
+                                out_a.append(await it_a.__anext__())
+                            except StopAsyncIteration:
+                                break
+                    try:
+                        G.drive(go())
+                        got = (out_a, log_a)
+                    except BaseException as e:  # noqa
+                        got = "raised %r" % (e,)
+                    rep.count(("reiterable", name, len(data), steps, asynchronous), True)
+                    # when the argument's iterator is requested may differ (a generator starts lazily): what counts is how often,
+                    # and the pulls
+                    ok = (isinstance(got, tuple) and got[0] == out_s and [e for e in got[1] if e != "iter"] == [e for e in log_s if e != "iter"]
+                          and got[1].count("iter") <= log_s.count("iter"))
+                    if not ok:
+                        fails += 1
+                        rep.violation("reiterable:%s" % name.split()[0], {"tool": name, "data": data, "steps": steps, "async_iterable": asynchronous,
+                                                                           "why": "(items, how the argument was iterated): asyncstdlib %r, stdlib %r" % (got, (out_s, log_s))})
+                        break
+                else:
+                    continue
+                break
     return fails
 
 
